@@ -19,6 +19,10 @@ class LengthGFA1:
     try_get_length
     """
     if self.LN is not None:
+      if not isinstance(self.LN, int) or isinstance(self.LN, bool):
+        raise gfapy.TypeError(
+          "The LN tag of segment {} is not an integer ({})".format(
+            self.name, repr(self.LN)))
       return self.LN
     elif not gfapy.is_placeholder(self.sequence):
       return len(self.sequence)
